@@ -616,6 +616,57 @@ func managerCase(c *fw.Ctx, s *section, r *fw.Rand, doc map[string]interface{}, 
 		m3.Shutdown()
 		os.Remove(p)
 	}
+	// environment through the Manager: a variable of this section has the same effect
+	// whether the file spells the section out (at its defaults) or leaves it out
+	if s.typ != config.Cluster {
+		for n := 0; n < 6; n++ {
+			l := ls[r.Intn(len(ls))]
+			cs := candidates(r, l.path[len(l.path)-1], l.val)
+			cd := cs[r.Intn(len(cs))]
+			ev, ok := envValue(cd.v)
+			if !ok || ev == "" {
+				continue
+			}
+			name := envName(s, l.path)
+			var secs [2]string
+			var oks [2]bool
+			for i := 0; i < 2; i++ {
+				f := clone(full)
+				if i == 1 {
+					grp, _ := f[sectionKey[s.typ]].(map[string]interface{})
+					delete(grp, s.name)
+				}
+				fb, _ := json.MarshalIndent(f, "", " ")
+				p := filepath.Join(c.Dir, fmt.Sprintf("svc-env-%d-%d-%d.json", c.CaseIdx(), n, i))
+				os.WriteFile(p, fb, 0o600)
+				mm, _ := newManager(c)
+				c.Journal("manager env %s=%q section-in-file=%v", name, ev, i == 0)
+				if err := mm.LoadJSONFromFile(p); err == nil {
+					os.Setenv(name, ev)
+					err = mm.ApplyEnvVars()
+					os.Unsetenv(name)
+					if err == nil {
+						if out, err := mm.ToJSON(); err == nil {
+							var of map[string]interface{}
+							dd := json.NewDecoder(bytes.NewReader(out))
+							dd.UseNumber()
+							dd.Decode(&of)
+							sb, _ := json.Marshal(locate(of))
+							secs[i], oks[i] = string(sb), true
+						}
+					}
+				}
+				mm.Shutdown()
+				os.Remove(p)
+			}
+			c.Eval(fmt.Sprintf("manager-env/%s/%s/%v/%v", s.name, pathStr(l.path), oks[0], oks[1]))
+			if oks[0] && oks[1] && secs[0] != secs[1] {
+				c.Violation("C15/manager/env-ignored-for-section-left-out/"+s.name,
+					fmt.Sprintf("%s=%q: the saved section differs between a file that spells the section out at its defaults and one that leaves it out", name, ev),
+					map[string]interface{}{"section-in-file": json.RawMessage(secs[0]), "section-left-out": json.RawMessage(secs[1])})
+			}
+		}
+	}
 	for n := 0; n < 12; n++ {
 		l := ls[r.Intn(len(ls))]
 		cs := candidates(r, l.path[len(l.path)-1], l.val)
